@@ -10,6 +10,7 @@ import (
 
 // startInfo gathers the anchors of Client.Start used by the gate rules.
 type startInfo struct {
+	p      *Prog
 	f      *Func
 	g      *Graph
 	info   *types.Info
@@ -25,7 +26,7 @@ func (p *Prog) startInfo(c *Ctx, rule string) *startInfo {
 		c.R.Undecided(rule, "Client.Start", "anchor", "function not found")
 		return nil
 	}
-	si := &startInfo{f: f, g: p.Graph(f), info: f.Pkg.TypesInfo}
+	si := &startInfo{p: p, f: f, g: p.Graph(f), info: f.Pkg.TypesInfo}
 	addrF := p.FieldObj(modPath, "Client", "address")
 	for _, n := range si.g.Nodes {
 		if as, ok := n.Ast.(*ast.AssignStmt); ok {
@@ -102,16 +103,14 @@ func (si *startInfo) varsFromCall(p *Prog, pred func(*ast.CallExpr) bool) (vars 
 
 // mustPassNode: every path from the line receive to the commit passes node n.
 func (si *startInfo) mustPassNode(n *Node) bool {
-	seen := si.g.Reach([]*Node{si.lineN}, func(x *Node) bool { return x == n }, nil)
-	_, reach := seen[si.commit]
-	return !reach
+	seen := si.p.FeasibleReach(si.f, []*Node{si.lineN}, func(x *Node) bool { return x == n }, nil)
+	return !seen[si.commit]
 }
 
 // gatePass: every path from the line receive to the commit takes one of the pass edges.
 func (si *startInfo) gatePass(pass func(*Edge) bool) bool {
-	seen := si.g.Reach([]*Node{si.lineN}, nil, pass)
-	_, reach := seen[si.commit]
-	return !reach
+	seen := si.p.FeasibleReach(si.f, []*Node{si.lineN}, nil, pass)
+	return !seen[si.commit]
 }
 
 // R-GATE — required validations of the handshake line dominate the success commit.
@@ -741,17 +740,18 @@ func ruleGateExcl(c *Ctx) {
 	}
 	okCount := counter != nil && len(incUnder) == 3
 	if okCount {
-		// all acting sites only via `counter == 1`
+		// all acting sites only via `counter == 1` (feasible paths: a failing test may
+		// merely record its error in a variable that is tested afterwards)
+		seen := p.FeasibleReach(f, []*Node{g.Entry}, nil, func(e *Edge) bool {
+			at, ok := edgeAtom(info, e)
+			if !ok || at.Kind != "cmp" || at.Op != token.EQL || identObj(info, at.X) != counter {
+				return false
+			}
+			k, isK := constInt(info, at.Y)
+			return isK && k == 1
+		})
 		for _, a := range acts {
-			aa := a
-			if !g.OnlyViaEdge(aa, func(e *Edge) bool {
-				at, ok := edgeAtom(info, e)
-				if !ok || at.Kind != "cmp" || at.Op != token.EQL || identObj(info, at.X) != counter {
-					return false
-				}
-				k, isK := constInt(info, at.Y)
-				return isK && k == 1
-			}) {
+			if seen[a] {
 				okCount = false
 			}
 		}
@@ -761,61 +761,65 @@ func ruleGateExcl(c *Ctx) {
 	} else {
 		c.R.Violate("R-GATE", p.Pos(f.Node()), f.Name, "G-excl/one-of", "the plugin can be launched or reattached although not exactly one of Cmd, Reattach, RunnerFunc is set", nil)
 	}
-	// (2) SecureConfig && Reattach, (3) GRPCBrokerMultiplex && Reattach: acting sites unreachable when both hold
+	// (2) SecureConfig && Reattach, (3) GRPCBrokerMultiplex && Reattach: under the
+	// assumption that both hold no acting site is reachable
+	assumeNonNil := func(fv *types.Var) func(*Edge) bool {
+		return func(e *Edge) bool { // cut edges that assert the field is nil
+			at, ok := edgeAtom(info, e)
+			return ok && at.Kind == "nil" && at.Op == token.EQL && SelField(info, at.X) == fv
+		}
+	}
+	assumeTrue := func(fv *types.Var) func(*Edge) bool {
+		return func(e *Edge) bool {
+			at, ok := edgeAtom(info, e)
+			return ok && at.Kind == "bool" && !at.True && SelField(info, at.X) == fv
+		}
+	}
 	for _, pair := range []struct {
 		name string
-		a    func(condAtom) bool
+		a    func(*Edge) bool
 	}{
-		{"G-excl/secure+reattach", func(at condAtom) bool { return at.Kind == "nil" && at.Op == token.NEQ && SelField(info, at.X) == scF }},
-		{"G-excl/mux+reattach", func(at condAtom) bool { return at.Kind == "bool" && at.True && SelField(info, at.X) == muxF }},
+		{"G-excl/secure+reattach", assumeNonNil(scF)},
+		{"G-excl/mux+reattach", assumeTrue(muxF)},
 	} {
-		ok := false
+		b := assumeNonNil(reF)
+		seen := p.FeasibleReach(f, []*Node{g.Entry}, nil, func(e *Edge) bool { return pair.a(e) || b(e) })
+		hit := false
+		for _, a := range acts {
+			if seen[a] {
+				hit = true
+			}
+		}
+		// the assumption must be tested at all (otherwise nothing was cut and the result is vacuous)
+		tested := false
 		for _, m := range g.Nodes {
 			for _, e := range m.Succs {
-				at, isAt := edgeAtom(info, e)
-				if !isAt || !pair.a(at) {
-					continue
-				}
-				// next: Reattach != nil true edge must not reach any acting site
-				for _, m2 := range g.Nodes {
-					for _, e2 := range m2.Succs {
-						a2, ok2 := edgeAtom(info, e2)
-						if !ok2 || a2.Kind != "nil" || a2.Op != token.NEQ || SelField(info, a2.X) != reF || e.To != m2 {
-							continue
-						}
-						seen := g.Reach([]*Node{e2.To}, nil, nil)
-						hit := false
-						for _, a := range acts {
-							if _, r := seen[a]; r {
-								hit = true
-							}
-						}
-						// and the check precedes every acting site
-						pre := true
-						for _, a := range acts {
-							if !g.Dominates(m, a) {
-								pre = false
-							}
-						}
-						if !hit && pre {
-							ok = true
-						}
-					}
+				if pair.a(e) {
+					tested = true
 				}
 			}
 		}
-		if ok {
-			c.R.Hold("R-GATE", p.Pos(f.Node()), f.Name, pair.name, "the conflicting combination returns an error before any launch or reattach site", true)
+		if !hit && tested {
+			c.R.Hold("R-GATE", p.Pos(f.Node()), f.Name, pair.name, "with both options set no launch or reattach site is reachable (an error is returned first)", true)
 		} else {
 			c.R.Violate("R-GATE", p.Pos(f.Node()), f.Name, pair.name, "the conflicting option combination is not refused before the plugin is launched / reattached", nil)
 		}
 	}
-	// sentinel for secure+reattach
+	// sentinel for secure+reattach: returned directly or through an error variable
 	sent := p.Pkgs[modPath].Types.Scope().Lookup("ErrSecureConfigAndReattach")
 	found := false
 	for _, m := range g.Nodes {
-		if rs, ok := m.Ast.(*ast.ReturnStmt); ok && len(rs.Results) == 2 && identObj(info, rs.Results[1]) == sent && sent != nil {
-			found = true
+		switch st := m.Ast.(type) {
+		case *ast.ReturnStmt:
+			if len(st.Results) == 2 && identObj(info, st.Results[1]) == sent && sent != nil {
+				found = true
+			}
+		case *ast.AssignStmt:
+			for i, r := range st.Rhs {
+				if identObj(info, r) == sent && sent != nil && i < len(st.Lhs) && isErrorType(info.TypeOf(st.Lhs[i])) {
+					found = true
+				}
+			}
 		}
 	}
 	if found {
